@@ -51,14 +51,19 @@ pub struct Buf {
     a: Arena,
     off: usize,
     len: usize,
+    shadow: Option<Vec<u8>>,
+}
+
+thread_local! {
+    pub static RO_REAL: std::cell::Cell<bool> = const { std::cell::Cell::new(false) };
 }
 
 impl Buf {
     pub fn new(len: usize, pl: Place, seed: u64) -> Buf {
         match pl {
-            Place::Right => Buf { a: Arena::new(len, Side::Right, seed), off: 0, len },
-            Place::Left => Buf { a: Arena::new(len, Side::Left, seed), off: 0, len },
-            Place::Mis(o) => Buf { a: Arena::new(len + 64 + o + 64, Side::Left, seed), off: 64 + o, len },
+            Place::Right => Buf { a: Arena::new(len, Side::Right, seed), off: 0, len, shadow: None },
+            Place::Left => Buf { a: Arena::new(len, Side::Left, seed), off: 0, len, shadow: None },
+            Place::Mis(o) => Buf { a: Arena::new(len + 64 + o + 64, Side::Left, seed), off: 64 + o, len, shadow: None },
         }
     }
     pub fn with(data: &[u8], pl: Place, seed: u64) -> Buf {
@@ -76,8 +81,21 @@ impl Buf {
         let (o, l) = (self.off, self.len);
         &mut self.a.as_mut_slice()[o..o + l]
     }
+    /// Protect an input: really read-only (mprotect) on one case in 64, otherwise keep a shadow
+    /// copy that `modified()` compares after the call (mprotect is pathologically slow in this
+    /// VM as soon as several processes use it concurrently).
     pub fn readonly(&mut self) {
-        self.a.set_readonly(true);
+        if RO_REAL.with(|r| r.get()) {
+            self.a.set_readonly(true);
+        } else {
+            self.shadow = Some(self.slice().to_vec());
+        }
+    }
+    pub fn modified(&self) -> bool {
+        match &self.shadow {
+            Some(s) => s[..] != *self.slice(),
+            None => false,
+        }
     }
     /// first byte outside [0,written) of the buffer (or in the arena slack) that lost its canary
     pub fn canary_violation(&self, written: usize) -> Option<isize> {
@@ -97,6 +115,7 @@ pub fn run(args: &Args) -> Report {
     let total = args.n(400_000, 6_000_000);
     let plats: Vec<P> = args.platforms_or(&[P::Portable, P::Sse2, P::Sse41, P::Avx2, P::Avx512]);
     let guard = args.get("guard") != Some("0");
+    let randomize = args.get("randomize") == Some("1");
     run::run_cases(args, 5, total, |idx, rng, rep| {
         // the derivation of (platform, kind, structural parameters) from the index is independent
         // of which platforms are available or selected, so that `--only idx` replays exactly
@@ -107,12 +126,13 @@ pub fn run(args: &Args) -> Report {
         let platform: Platform = p.platform().expect("available");
         let kind = (idx / 5) % 8;
         monlib::crash::set_case(idx, p as u64, 5);
+        RO_REAL.with(|r| r.set(idx % 64 == 0));
         let seed = rng.u64();
         let mut fail: Option<(String, String)> = None;
         match kind {
             // ------------------------------------------------------------ single-block kernels
             0 | 1 | 2 | 3 => {
-                let sub = (idx / 40) as usize;
+                let sub = if randomize { rng.usize_below(1 << 24) } else { (idx / 40) as usize };
                 let block_len = (sub % 65) as u8;
                 let flags = if kind < 2 { ((sub / 65) % 256) as u8 } else { rng.below(256) as u8 };
                 let (counter, cname) = counter_class(rng, 0);
@@ -156,12 +176,12 @@ pub fn run(args: &Args) -> Report {
                     }
                 }
                 if let Some((c, d)) = fail.take() {
-                    rep.violation(format!("C05/{}/{}/{}", kname, p.name(), c), format!("block_len={} flags={} counter={} cv={} block={} placement={:?}/{:?}: {}", block_len, flags, counter, hex(&cvb), hex(&blockb), pl_block, pl_cv, d), args.replay_args(idx, p));
+                    rep.violation(format!("{}/{}/{}/{}", if c == "canary" { "C07/kern" } else { "C05" }, kname, p.name(), c), format!("block_len={} flags={} counter={} cv={} block={} placement={:?}/{:?}: {}", block_len, flags, counter, hex(&cvb), hex(&blockb), pl_block, pl_cv, d), args.replay_args(idx, p));
                 }
             }
             // ------------------------------------------------------------ hash_many
             4 | 5 | 6 => {
-                let sub = (idx / 40) as usize;
+                let sub = if randomize { rng.usize_below(1 << 24) } else { (idx / 40) as usize };
                 let n = sub % 36;
                 let blocks = if (sub / 36) % 2 == 0 { 1 } else { 16 };
                 let incr = (sub / 72) % 2 == 0;
@@ -204,6 +224,17 @@ pub fn run(args: &Args) -> Report {
                 rep.eval(format!("hash_many/{}/n{}/b{}/i{}/{}/{:?}", p.name(), n, blocks, incr as u8, cname, pl_out));
                 rep.seen("kernels", format!("hash_many{}/{}", blocks, p.name()));
                 let inc = if incr { IncrementCounter::Yes } else { IncrementCounter::No };
+                // Under Miri the reference array is an ordinary Vec (integers written into an arena
+                // carry no provenance); natively it is the guard-page arena filled above.
+                #[cfg(miri)]
+                let r = if blocks == 1 {
+                    let v: Vec<&[u8; 64]> = inputs.iter().map(|b| unsafe { &*(b.ptr() as *const [u8; 64]) }).collect();
+                    guarded(|| platform.hash_many(&v, &key, counter, inc, flags, fs, fe, out.slice_mut()))
+                } else {
+                    let v: Vec<&[u8; 1024]> = inputs.iter().map(|b| unsafe { &*(b.ptr() as *const [u8; 1024]) }).collect();
+                    guarded(|| platform.hash_many(&v, &key, counter, inc, flags, fs, fe, out.slice_mut()))
+                };
+                #[cfg(not(miri))]
                 let r = if blocks == 1 {
                     let refs: &[&[u8; 64]] = unsafe { core::slice::from_raw_parts(ptrs.ptr() as *const &[u8; 64], n) };
                     guarded(|| platform.hash_many(refs, &key, counter, inc, flags, fs, fe, out.slice_mut()))
@@ -213,7 +244,9 @@ pub fn run(args: &Args) -> Report {
                 };
                 match r {
                     Ok(()) => {
-                        if out.slice() != &want[..] {
+                        if inputs.iter().any(|b| b.modified()) || ptrs.modified() {
+                            fail = Some(("canary".into(), "a read-only input (or the pointer array) was modified".into()));
+                        } else if out.slice() != &want[..] {
                             let first = out.slice().iter().zip(want.iter()).position(|(a, b)| a != b).unwrap_or(0);
                             fail = Some(("mismatch".into(), format!("output differs first at byte {} (input #{})", first, first / 32)));
                         } else if let Some(off) = out.canary_violation(32 * n) {
@@ -223,12 +256,12 @@ pub fn run(args: &Args) -> Report {
                     Err(m) => fail = Some(("panic".into(), m)),
                 }
                 if let Some((c, d)) = fail.take() {
-                    rep.violation(format!("C05/hash_many/{}/{}", p.name(), c), format!("num_inputs={} blocks={} increment={} counter={} flags=({},{},{}) out_placement={:?}: {}", n, blocks, incr, counter, flags, fs, fe, pl_out, d), args.replay_args(idx, p));
+                    rep.violation(format!("{}/hash_many/{}/{}", if c == "canary" { "C07/kern" } else { "C05" }, p.name(), c), format!("num_inputs={} blocks={} increment={} counter={} flags=({},{},{}) out_placement={:?}: {}", n, blocks, incr, counter, flags, fs, fe, pl_out, d), args.replay_args(idx, p));
                 }
             }
             // ------------------------------------------------------------ xof_many
             _ => {
-                let sub = (idx / 40) as usize;
+                let sub = if randomize { rng.usize_below(1 << 24) } else { (idx / 40) as usize };
                 let n = sub % 36; // 0 goes through the wrapper's guard
                 let block_len = ((sub / 36) % 65) as u8;
                 let (counter, cname) = counter_class(rng, n as u64);
@@ -262,7 +295,7 @@ pub fn run(args: &Args) -> Report {
                     Err(m) => fail = Some(("panic".into(), m)),
                 }
                 if let Some((c, d)) = fail.take() {
-                    rep.violation(format!("C05/xof_many/{}/{}", p.name(), c), format!("n={} block_len={} counter={} flags={} out_placement={:?}: {}", n, block_len, counter, flags, pl_out, d), args.replay_args(idx, p));
+                    rep.violation(format!("{}/xof_many/{}/{}", if c == "canary" { "C07/kern" } else { "C05" }, p.name(), c), format!("n={} block_len={} counter={} flags={} out_placement={:?}: {}", n, block_len, counter, flags, pl_out, d), args.replay_args(idx, p));
                 }
             }
         }
